@@ -376,7 +376,73 @@ def _children(run: Run, prog: Program, model: Model, cls: ClassInfo) -> None:
         else:
             run.violated("CHILDREN", "IN/RANGE: ordinal drawn in [lo, hi]", site, "a character range is not drawn between its own bounds",
                          witness="generate('[a-c]') not in 'abc'")
+    # NEGATED RANGE: every alphabet letter inside [lo, hi] is excluded
+    if "_generate_not_in" in cls.methods:
+        lo, hi = Sym("lo", "int", ("node", "lo")), Sym("hi", "int", ("node", "hi"))
+        ps = _run_handler(prog, model, cls, "_generate_not_in", lambda: ListV([TupleV([_op(prog, cls, "RANGE"), TupleV([lo, hi])])]))
+        site = cls.methods["_generate_not_in"].loc
+        letters = _letters(prog, model)
+        c = "NOT_IN/RANGE: every alphabet letter of [lo, hi] is excluded"
+        spans: List[Tuple[V, V]] = []
+        other = False
+        for p in ps:
+            for e in p.events:
+                if e.kind in ("comp_iter", "loop") and e.func.endswith("_generate_not_in"):
+                    it = e.data["iterable"]
+                    if isinstance(it, Term) and it.op == "src":
+                        it = it.args[0]
+                    if isinstance(it, Term) and it.op == "range" and len(it.args) == 2 and ("lo" in it.key() or "hi" in it.key()):
+                        spans.append((it.args[0], it.args[1]))
+                    elif isinstance(it, V) and ("lo" in it.key().split("@")[0] or "hi" in it.key().split("@")[0]):
+                        other = True
+        if not spans or letters is None:
+            run.undecided("CHILDREN", c, site, "the expansion of a negated range is not a range(a, b) over its bounds" if not spans else "alphabet not constant")
+        else:
+            from .c01 import _int_eval
+            ords = sorted({ord(ch) for ch in letters})
+            cands = sorted({0, 1, ords[0] - 1, ords[0], ords[0] + 1, ords[len(ords) // 2], ords[-1] - 1, ords[-1], ords[-1] + 1, ords[-1] + 40})
+            cex = None
+            evaluable = True
+            for a, b in spans:
+                for l in cands:
+                    for h in cands:
+                        if l > h or l < 0:
+                            continue
+                        env = {"lo": l, "hi": h}
+                        av, bv = _int_eval(a, env), _int_eval(b, env)
+                        if av is None or bv is None:
+                            evaluable = False
+                            continue
+                        missed = [x for x in ords if l <= x <= h and not (av <= x < bv)]
+                        if missed and cex is None:
+                            cex = (l, h, missed[0], a.key(), b.key())
+            if cex is not None:
+                l, h, x, ak, bk = cex
+                run.violated("CHILDREN", c, site,
+                             f"for the range [{l}, {h}] the expansion range({ak[:40]}, {bk[:40]}) leaves {chr(x)!r} ({x}) of the alphabet un-excluded",
+                             witness=f"generate('[^{chr(max(l, 33))}-{chr(min(h, 126))}]') can return {chr(x)!r}")
+            elif not evaluable:
+                run.undecided("CHILDREN", c, site, "bounds of the expansion are not arithmetic over lo / hi")
+            else:
+                run.holds("CHILDREN", c, site, f"range bounds cover [lo, hi] on {len(cands) ** 2 // 2} sampled placements against the {len(ords)}-letter alphabet", nontrivial=True)
     run.floor("CHILDREN", 4)
+
+
+def _letters(prog: Program, model: Model) -> Optional[str]:
+    it = Interp(prog, model)
+    out: List[Optional[str]] = [None]
+
+    def run1(i: Interp) -> V:
+        g = make_visitor(i, "Generator")
+        rg = g.attrs.get("_regex_generator")
+        al = rg.attrs.get("_alphabet") if isinstance(rg, Inst) else None
+        if al is not None and hasattr(al, "pairs"):
+            for k, v in al.pairs():  # type: ignore
+                if isinstance(k, Const) and k.value == "letters" and isinstance(v, Const) and isinstance(v.value, str):
+                    out[0] = v.value
+        return Const(None)
+    it.run_paths(run1)
+    return out[0]
 
 
 def _op(prog: Program, cls: ClassInfo, name: str) -> V:
@@ -467,6 +533,11 @@ MUTANTS = [
      "edits": [(X, "        return \"\".join(self._generate(*x) for x in value)", "        out = \"\"\n        for x in value:\n            try:\n                out += self._generate(*x)\n            except ValueError:\n                pass\n        return out")]},
     {"name": "repeat lower bound starts at zero", "rule": "CHILDREN",
      "edits": [(X, "        count = self._random.random_int(min_count, max_count)", "        count = self._random.random_int(0, max_count)")]},
+    {"name": "negated range expanded without its upper end", "rule": "CHILDREN",
+     "edits": [(X, "max_ord + 1))", "max_ord))")]},
+    {"name": "neutral: negated range expanded by an explicit loop", "expect": "SILENT",
+     "edits": [(X, "                exclude_letters += \"\".join(self._generate_literal(x) for x in range(min_ord,\n                                                                                    max_ord + 1))",
+                "                for x in range(min_ord, max_ord + 1):\n                    exclude_letters += self._generate_literal(x)")]},
     {"name": "neutral: elif chain turned into `in` tests", "expect": "SILENT",
      "edits": [(X, "        elif opcode == MIN_REPEAT:\n            return self._generate_min_repeat(value)", "        elif opcode in (MIN_REPEAT,):\n            return self._generate_min_repeat(value)")]},
     {"name": "neutral: count drawn into a differently named local", "expect": "SILENT",
